@@ -78,6 +78,8 @@ struct Thread
   bool progressed{false};
   // the last operation, for spin detection: a relaxed load that reads the very message the thread's previous operation (also
   // a relaxed load of the same location) read is an iteration of a spin loop (Spinlock::lock) and waits for a newer message
+  bool latest_only{false}; // this thread's loads read the latest message from now on
+  bool custom_wait{false}; // blocked on a harness-defined condition (World::custom_wake) instead of on locations
   int last_load_id{-1}, last_load_idx{-1};
   bool last_was_relaxed_load{false};
   std::function<void()> body;
@@ -110,6 +112,7 @@ struct World
                                        // the writer's history, which keeps the history-based state key exact
   bool sc_only{false};     // every load reads the latest message (sequentially consistent interleavings only)
   bool auto_spin{false};   // spin detection on (whole-system harness)
+  std::function<bool()> custom_wake; // condition of the (single) thread blocked with custom_wait
   int nthreads{MAXT};
   int deviations{0};
   int gen{0};
@@ -262,6 +265,10 @@ inline void do_store(int id, uint64_t v, std::memory_order o)
   L.mo.push_back(std::move(m));
   ++T.ops;
   T.last_was_relaxed_load = false;
+  {
+    static bool const trace_on = getenv("VF_TRACE") != nullptr;
+    if (trace_on) fprintf(stderr, "  t%d store L%d = %llu (msg %zu)\n", W->cur, id, static_cast<unsigned long long>(v), L.mo.size() - 1);
+  }
   T.hist += W->allow_unordered_writers ? "s@" + std::to_string(L.mo.size() - 1) + ";" : std::string("s;");
 }
 
@@ -306,6 +313,10 @@ inline uint64_t do_rmw(int id, F f, std::memory_order o)
   ++T.ops;
   T.last_was_relaxed_load = false;
   T.hist += "r" + std::to_string(id) + ":" + std::to_string(idx) + ";";
+  {
+    static bool const trace_on = getenv("VF_TRACE") != nullptr;
+    if (trace_on) fprintf(stderr, "  t%d rmw L%d read msg %d val %llu -> %llu\n", W->cur, id, idx, static_cast<unsigned long long>(prev.val), static_cast<unsigned long long>(L.mo.back().val));
+  }
   return prev.val;
 }
 
@@ -355,7 +366,7 @@ inline uint64_t do_load(int id, std::memory_order o, bool spin_candidate = false
     yield_to_main();
     return 0;
   }
-  if (W->latest_only || W->sc_only || W->cur == 0)
+  if (W->latest_only || W->sc_only || W->cur == 0 || T.latest_only)
     idx = hi;
   else
   {
@@ -393,6 +404,10 @@ inline uint64_t do_load(int id, std::memory_order o, bool spin_candidate = false
     T.wait_loc[0] = T.wait_loc[1] = -1;
   }
   T.hist += std::to_string(id) + ":" + std::to_string(idx) + ";";
+  {
+    static bool const trace_on = getenv("VF_TRACE") != nullptr;
+    if (trace_on) fprintf(stderr, "  t%d load L%d -> msg %d/%d val %llu\n", W->cur, id, idx, hi, static_cast<unsigned long long>(m.val));
+  }
   return m.val;
 }
 
@@ -410,10 +425,25 @@ inline void block_until_newer(int loc_a, int loc_b)
   T.wait_loc[1] = loc_b;
   T.wait_idx[1] = loc_b >= 0 ? T.view[static_cast<size_t>(loc_b)] : -1;
   T.hist += "w;";
+  {
+    static bool const trace_on = getenv("VF_TRACE") != nullptr;
+    if (trace_on) fprintf(stderr, "  t%d waits for newer than msg %d at L%d\n", W->cur, T.wait_idx[0], loc_a);
+  }
   yield_to_main();
   T.blocked = false;
   T.must_progress = true;
   T.progressed = false;
+}
+// the calling thread waits for a condition over the other threads' scheduling states (set in World::custom_wake)
+inline void block_on_custom_condition()
+{
+  Thread& T = W->th[W->cur];
+  T.blocked = true;
+  T.custom_wait = true;
+  T.hist += "W;";
+  yield_to_main();
+  T.blocked = false;
+  T.custom_wait = false;
 }
 inline void end_wait_attempt()
 {
@@ -425,6 +455,7 @@ inline void end_wait_attempt()
 
 inline bool wake_possible(Thread const& T)
 {
+  if (T.custom_wait) return W->custom_wake && W->custom_wake();
   for (int k = 0; k < 2; ++k)
     if (T.wait_loc[k] >= 0 && static_cast<int>(W->locs[static_cast<size_t>(T.wait_loc[k])].mo.size()) - 1 > T.wait_idx[k]) return true;
   return false;
